@@ -96,3 +96,14 @@ func PathNtGood(s *ctlState) {
 		sink()
 	}
 }
+
+// CdExtraGuard: sink is guarded by n>0 and by an extra conjunctive guard err==nil.
+func CdExtraGuard(s *ctlState, xs []int) {
+	for _, x := range xs {
+		if x > 0 {
+			if s.err == nil {
+				sink()
+			}
+		}
+	}
+}
